@@ -586,6 +586,9 @@ pub mod verif_hooks {
     pub fn amount_to_scalar(amt: PaymentAmount) -> Scalar {
         amt.to_scalar()
     }
+    pub fn channel_id_to_scalar(bytes: [u8; 32]) -> Scalar {
+        ChannelId(bytes).to_scalar()
+    }
 }
 
 #[cfg(test)]
